@@ -549,6 +549,10 @@ where
     Idx: Copy,
     V: Float + UlpsEq,
 {
+    // Entries that compare equal within the tolerance are merged symmetrically (the common value when they are equal):
+    // taking the left operand's entry made every operator non-commutative for entries that differ by less than epsilon,
+    // and epistemic fusion amplifies that difference by 1/a[i].
+    let mid = |l: V, r: V| if l == r { l } else { (l + r) / (V::one() + V::one()) };
     if std::ptr::eq(lhs.base_rate, rhs.base_rate) {
         lhs.base_rate.clone()
     } else if lhs.is_dogmatic() && rhs.is_dogmatic() {
@@ -557,7 +561,7 @@ where
         match op {
             FuseOp::ACm | FuseOp::ECm if lhs.is_vacuous() && rhs.is_vacuous() => T::from_fn(|i| {
                 if ulps_eq!(lhs.base_rate[i], rhs.base_rate[i]) {
-                    lhs.base_rate[i]
+                    mid(lhs.base_rate[i], rhs.base_rate[i])
                 } else {
                     (lhs.base_rate[i] + rhs.base_rate[i]) / (V::one() + V::one())
                 }
@@ -576,7 +580,7 @@ where
                 let temp = rhs_u * lhs_sum_b + lhs_u * rhs_sum_b;
                 T::from_fn(|i| {
                     if ulps_eq!(lhs.base_rate[i], rhs.base_rate[i]) {
-                        lhs.base_rate[i]
+                        mid(lhs.base_rate[i], rhs.base_rate[i])
                     } else {
                         (lhs.base_rate[i] * rhs_u * lhs_sum_b
                             + rhs.base_rate[i] * lhs_u * rhs_sum_b)
@@ -586,14 +590,14 @@ where
             }
             FuseOp::Avg => T::from_fn(|i| {
                 if ulps_eq!(lhs.base_rate[i], rhs.base_rate[i]) {
-                    lhs.base_rate[i]
+                    mid(lhs.base_rate[i], rhs.base_rate[i])
                 } else {
                     (lhs.base_rate[i] + rhs.base_rate[i]) / (V::one() + V::one())
                 }
             }),
             FuseOp::Wgh if lhs.is_vacuous() && rhs.is_vacuous() => T::from_fn(|i| {
                 if ulps_eq!(lhs.base_rate[i], rhs.base_rate[i]) {
-                    lhs.base_rate[i]
+                    mid(lhs.base_rate[i], rhs.base_rate[i])
                 } else {
                     (lhs.base_rate[i] + rhs.base_rate[i]) / (V::one() + V::one())
                 }
@@ -608,7 +612,7 @@ where
                 let temp = lhs_sum_b + rhs_sum_b;
                 T::from_fn(|i| {
                     if ulps_eq!(lhs.base_rate[i], rhs.base_rate[i]) {
-                        lhs.base_rate[i]
+                        mid(lhs.base_rate[i], rhs.base_rate[i])
                     } else {
                         (lhs.base_rate[i] * lhs_sum_b + rhs.base_rate[i] * rhs_sum_b) / temp
                     }
